@@ -17,16 +17,16 @@ P = {
     "theorems_module": "Properties.C06",
     "theorems": ["C06_history_equals_fresh", "C06_history_equals_fresh_any", "C06_lookups_equal_fresh",
                  "C06_delete_cleans", "C06_rejected_iff_cannot_apply", "C06_deleted_never_match",
-                 "C06_current_rules_indexed", "C06_same_source_constraint",
-                 "C06_F1_refuted", "C06_F2_refuted", "C06_F6_pinned_refuted",
+                 "C06_current_rules_indexed", "C06_same_source_constraint", "C06_F1_refuted", "C06_F2_refuted",
                  "C06_F3_pinned_refuted", "C06_F4_pinned_refuted", "C06_F4_pinned_panic", "C06_F5_pinned_refuted",
-                 "C06_repaired_examples", "C06_nonvacuous",
-                 "C06_tree_add_refines", "C06_tree_delete_refines", "C06_radix_delete_refines_machine",
-                 "C06_tree_invariant", "C06_tree_refines_index", "C06_tree_history_equals_fresh",
-                 "C06_tree_captures_equal_fresh", "C06_tree_never_panics", "C06_tree_prune_merge_example",
-                 "C06_F6_repaired_history_equals_fresh", "C06_F6_repaired_rejected_iff_cannot_apply",
-                 "C06_F6_repaired_deleted_never_match", "C06_F6_repaired_current_rules_indexed",
-                 "C06_F6_repaired_tree_history_equals_fresh", "C06_F6_repaired_example"],
+                 "C06_F6_pinned_refuted", "C06_repaired_examples", "C06_nonvacuous", "C06_tree_add_refines",
+                 "C06_tree_delete_refines", "C06_radix_delete_refines_machine", "C06_tree_invariant",
+                 "C06_tree_refines_index", "C06_tree_history_equals_fresh", "C06_tree_captures_equal_fresh",
+                 "C06_tree_never_panics", "C06_tree_prune_merge_example", "C06_F6_repaired_history_equals_fresh",
+                 "C06_F6_repaired_rejected_iff_cannot_apply", "C06_F6_repaired_deleted_never_match",
+                 "C06_F6_repaired_current_rules_indexed", "C06_F6_repaired_tree_history_equals_fresh",
+                 "C06_F6_repaired_lookups_equal_fresh", "C06_F6_repaired_same_source_constraint",
+                 "C06_F6_repaired_tree_captures_equal_fresh", "C06_F6_repaired_example"],
     "streams": [{
         "name": "history", "pkg": "./internal/rules", "test": "TestVerifC06",
         "overlay": {"internal/rules/zz_verif_c06_test.go": "c06/c06_test.go"},
@@ -34,7 +34,7 @@ P = {
         "n_quick": 1200, "n_thorough": 24000, "shard": 40,
         "findings": {1: "C06-F1", 2: "C06-F2", 3: "C06-F3", 4: "C06-F4", 5: "C06-F5", 6: "C06-F6"},
     }],
-    "rule": "histories of 2..25 (a 'big' profile: up to 22 operations on sets of 16..26 rules sharing 2..4 expressions) rule-set "
+    "rule": "histories of 2..26 (a 'big' profile: up to 22 operations on sets of 16..26 rules sharing 2..4 expressions) rule-set "
             "creations / updates / deletions over 1..5 sources through the REAL rule-set processor (OnCreated/OnUpdated/OnDeleted with "
             "config.RuleSet values; 5 % of the operations with an unsupported version or a rule the factory cannot create) into the "
             "REAL repository (newRepository, Add/Update/DeleteRuleSet, FindRule; real ruleImpl/routeImpl with SameAs/EqualTo and the "
@@ -43,11 +43,11 @@ P = {
             "version to version (one field of the definition only - execute, forward_to, hosts, scheme, allow_encoded_slashes, "
             "on_error, path_params - / methods / flag / paths added-removed-replaced / rule added anywhere / removed / reordered / "
             "unchanged / EMPTY set; deletion of unknown sources; cross-source collisions, invalid expressions, escapes, ':' '*' inside "
-            "segments, varying wildcard names, empty / percent-encoded / non-ASCII segments, no leading slash, duplicate paths and "
-            "duplicate rule ids - which the processor must refuse - in dedicated profiles); after EVERY prefix 10..40 probe requests (instantiations of the expressions in use and near misses, "
+            "segments, varying wildcard names, empty / percent-encoded / non-ASCII segments, no leading slash, duplicate paths; "
+            "duplicate rule ids (which the processor must refuse) in dedicated profiles); after EVERY prefix 10..40 probe requests (instantiations of the expressions in use and near misses, "
             "3 methods, a quarter of them handed over as URL.RawPath) are looked up in the history repository and in a real repository "
             "freshly loaded with the sets accepted so far; the rule found AND the captures left in the request are observed.  Corpus "
-            "(witnesses of C06-F1..F6 incl. the repaired F3/F4/F5 and the former delNode panic, plain histories) first.  Non-trivial = "
+            "(16 cases: witnesses of C06-F1..F6 incl. the repaired F3/F4/F5/F6 and the former delNode panic, plain histories) first.  Non-trivial = "
             "the history contains an accepted update that changes the definition of an existing rule; distinct by hash of the generated input",
     "anchors": ["internal/rules/repository_impl.go", "internal/x/radixtree/tree.go",
                 "internal/rules/ruleset_processor_impl.go", "internal/rules/rule_impl.go"],
@@ -62,7 +62,8 @@ P = {
                 "rule hash modelled by its pre-image (the whole definition); object identity of rules and routes (pointer comparison "
                 "in slices.Contains and, since fix 003095f, in the value matcher of removeRulesFrom) is modelled by structural "
                 "equality: the same unless two equal rule objects are loaded at once, which (duplicate ids being refused since 5e2c60e) "
-                "needs the creation of an existing set; from the step after that happened in a history (a few percent of the generated ones) "
+                "needs the creation of an existing set; from the step after that happened in a history (re-creations are generated in about 8 % "
+                "of the histories) "
                 "models and implementation are not compared any more, only the implementation's own history-vs-fresh comparison "
                 "is evaluated",
                 "the rule factory behind the real rule-set processor is a stub that turns a config.Rule into a ruleImpl (id, source, "
@@ -76,8 +77,9 @@ P = {
                   "the index of a fresh load of the current sets (hence every lookup, for every path and every outcome of the rules' "
                   "conditions, finds the same rule).  Also for histories that went through C06-F1/F2: a change is rejected iff it cannot "
                   "be applied (duplicate rule id / invalid expression incl. incompatible wildcard names / expression owned by another set) and then leaves "
-                  "the state unchanged; lookups only return rules of current versions; every route of every current rule is indexed; a "
-                  "node holds rules of one source.  No hypothesis besides well-formedness (a rule set is created only when it does not "
+                  "the state unchanged; lookups only return rules of current versions; every route of every current rule is indexed (indexed, "
+                  "not necessarily reachable: inside C06-F2 a wrong node flag can hide it); a node holds rules of one source "
+                  "(C06_F6_repaired_rejected_iff_cannot_apply, _deleted_never_match, _current_rules_indexed, _same_source_constraint).  No hypothesis besides well-formedness (a rule set is created only when it does not "
                   "exist): that rule ids are unique is a consequence of acceptance since the repair of C06-F6.  Every finding has a `_refuted` / `_pinned_refuted` witness.  The model is tied to the Go code by running "
                   "~1200 (quick) / 24000 (thorough) generated histories per run through the real processor+repository and comparing, after "
                   "every prefix, accept/reject/crash and lookups with the transcribed tree and the abstract model; the property predicate "
@@ -88,10 +90,14 @@ P = {
                   "delete on the abstraction of the tree, and for EVERY history the repository over the tree has the same known rules, "
                   "the same outcome of every operation and the same rule for every lookup as the repository over the abstract index "
                   "(C06_tree_refines_index); hence lookups in the tree after a history = lookups in a freshly loaded tree "
-                  "(C06_tree_history_equals_fresh), and the tree code never panics (C06_tree_never_panics).",
+                  "(C06_tree_history_equals_fresh / C06_F6_repaired_tree_history_equals_fresh), and the panic sites the transcription models - "
+                  "the delNode slice bound (former C06-F4) and fuel exhaustion - are unreachable for creations/updates/deletions after "
+                  "any history (C06_tree_never_panics; lookups, captures and nil dereferences are not covered by it).",
     "level_note": "Partial: (1) the step from the transcribed compressed radix tree (C06/Tree.v) to the abstract index is proved for the "
-                  "code as it is now (all_fix) only; for the pinned commit (no_fix: C06-F3/F5 live in node compression / stale key names) "
-                  "tree and index are related by the differential run and the `_pinned_refuted` witnesses only.  Static-child priorities "
+                  "code as it is now (all_fix) only; for the variant `no_fix` (the tree as it is with the repairs 2d9cd1f / 003095f / f6ce52b of "
+                  "C06-F3/F4/F5 reverted - not the pinned commit: the other tree.go repairs 20f92b3, e897fef, 88da16a, 16cf34b are in every "
+                  "variant; C06-F3/F5 live in node compression / stale key names) tree and index are related by the `_pinned_refuted` "
+                  "witnesses only (`_pinned_refuted` = stated about the variant before the named commit).  Static-child priorities "
                   "(sortStaticChildren) are not in the transcription.  Both sides of the main equation use the same model lookup/add, so "
                   "a wrong lookup is the business of C02/C03 (Radix/TreeProofs.v: findNode = the specification's lookup) and of the "
                   "differential run. "
@@ -99,7 +105,9 @@ P = {
                   "the tree of C06/Tree.v - also the key names and captured values (C06_tree_captures_equal_fresh); C06/Tree.v's own "
                   "findNode and the C06 stream carry no captures (route conditions = methodMatcher), captures are compared "
                   "history-vs-fresh on the implementation.  (3) The order clause of the statement is refuted (C06-F1), not proved; inside `dirty` only the membership-level "
-                  "theorems hold.  (4) That a rejected change leaves no trace is true of the model by construction (work on a value); "
+                  "theorems hold.  `dirty` is sticky under updates: a source hit by C06-F1/F2 stays outside the main theorem until its rule "
+                  "set is DELETED; an update, even one replacing every rule, does not bring it back - for a deployment that never deletes "
+                  "a rule set the main equation is silent for that source after the first hit.  (4) That a rejected change leaves no trace is true of the model by construction (work on a value); "
                   "clone depth / swap-on-success are covered by the differential run only.  Open findings: C06-F1 changed rule "
                   "re-appended / reordering ignored, C06-F2 node flag = last Add.  Repaired by fix: commits: "
                   "C06-F3, C06-F4 (incl. a delNode panic), C06-F5, C06-F6 (duplicate rule ids; the theorems about the bare repository "
@@ -113,5 +121,8 @@ P = {
                     "a driver that no longer compiles (renamed ruleImpl field) is reported by lib/runner.py as a broken correspondence stream; "
                     "it should be 'driver broken' (framework change request)",
                     "lookups follow tree.go after the fix: commits e897fef (C02-F1), 88da16a (C03-F2), 16cf34b (C03-F5): check term "
-                    "`check false`; `check true` is the pinned behaviour (a failed free-wildcard node consults its parent's flag)"],
+                    "`check false`; `check true` is the behaviour before e897fef (a failed free-wildcard node consults its parent's flag)",
+                    "Add follows tree.go after fix: commit 20f92b3 (C03-F3: a free-wildcard path must use the key names registered for its "
+                    "node; part of `keys_ok` in the specification's acceptance): there is no switch for it, a tree without it breaks the "
+                    "correspondence"],
 }
